@@ -64,6 +64,7 @@ def gen(rng, tier):
             # an earlier, longer save exists under the same name: the write has to replace it, not overwrite its beginning
             pre_w = ["newini 9"] + ["set 9 string %s %s %s 0" % (vlib.enc(b"old section %d" % j), vlib.enc(b"old-key-%d" % j), vlib.enc(b"old value " * 8))
                                      for j in range(rng.randrange(1, 6))] + ["write 9"]
+        if rng.random() < 0.4: pre_w = pre_w + ["write 0"]        # the object has been written before: the second file must be as good as the first
         s = Scenario(cmds + pre_w + ["dump 0", "getall 0", "reread 1 0", "getall 1", "ext 1 - x6b31"],
                      [False] * (len(cmds) + len(pre_w)) + [False, True, True, True, False], tags=("writable" if w.startswith("writable=1") else "other",))
         s.wspec = w
